@@ -746,10 +746,11 @@ def check_twins(seed, acc):
     spines = ["spine%d.dc%d.example" % (s_, d_) for d_ in range(1, ndc + 1) for s_ in range(1, rng.randint(1, 2) + 1)]
     tors = ["tor%d.dc%d.example" % (t_, d_) for d_ in range(1, ndc + 1) for t_ in range(1, rng.randint(1, 2) + 1)]
     rrs = ["rr1.dc%d.example" % d_ for d_ in range(1, ndc + 1)] if rng.random() < 0.7 else []
-    devices = spines + tors + rrs
+    aggs = ["agg%d.dc1.example" % a_ for a_ in range(1, rng.randint(1, 2) + 1)] if rng.random() < 0.7 else []
+    devices = spines + tors + rrs + aggs
     asn = {d_: 64000 + i for i, d_ in enumerate(devices)}
     links, cnt = [], {d_: 0 for d_ in devices}
-    for t_ in tors:
+    for t_ in tors + aggs:
         for s_ in rng.sample(spines, rng.randint(2, len(spines))):
             for _ in range(rng.choice([1, 1, 2])):          # (parallel links: the neighbour is listed once per link)
                 links.append((t_, "e%d" % cnt[t_], s_, "e%d" % cnt[s_]))
@@ -774,6 +775,21 @@ def check_twins(seed, acc):
         tor.asnum, spine.asnum = asn[tor.device.fqdn], asn[spine.device.fqdn]
         session.families = {"ipv4_unicast"}
     reg.direct("tor{t}", "spine{s}", port_processor=separate_ports)(on_direct)
+    if aggs:
+        reg.direct("agg{a}", "spine{s}", port_processor=separate_ports)(on_direct)     # the same handler function serves a second rule
+    # two rules of virtual peers on the tors whose order numbers overlap: each rule's peers exist (other interfaces, other addresses)
+
+    def on_virtual4(local, virtual, session):
+        local.svi, local.addr, local.asnum = 10, "192.168.10.1/24", 65000
+        virtual.addr, virtual.asnum = "192.168.10.%d" % (10 + virtual.num), 65100 + virtual.num
+        session.families = {"ipv4_unicast"}
+
+    def on_virtual6(local, virtual, session):
+        local.svi, local.addr, local.asnum = 20, "2001:db8:20::1/64", 65000
+        virtual.addr, virtual.asnum = "2001:db8:20::%d" % (10 + virtual.num), 65200 + virtual.num
+        session.families = {"ipv6_unicast"}
+    reg.virtual("tor{t}", [1, 2, 3])(on_virtual4)
+    reg.virtual("tor{t}", [2, 3, 4])(on_virtual6)
 
     def on_indirect(spine, rr, session):
         spine.addr, rr.addr = "172.20.%d.%d/32" % (devices.index(spine.device.fqdn), devices.index(rr.device.fqdn)), "172.21.%d.%d/32" % (devices.index(rr.device.fqdn), devices.index(spine.device.fqdn))
@@ -803,7 +819,12 @@ def check_twins(seed, acc):
         for r_ in rrs:
             want.append((s_, r_, "lo0", "172.21.%d.%d" % (devices.index(r_), devices.index(s_)), asn[r_]))
             want.append((r_, s_, "lo0", "172.20.%d.%d" % (devices.index(s_), devices.index(r_)), asn[s_]))
-    got = sorted((d_, p.hostname, p.interface, str(p.addr), int(p.remote_as)) for d_, ps in res.items() for p in ps)
+    for t_ in tors:
+        for n_ in (1, 2, 3):
+            want.append((t_, "", "Vlan10", "192.168.10.%d" % (10 + n_), 65100 + n_))
+        for n_ in (2, 3, 4):
+            want.append((t_, "", "Vlan20", "2001:db8:20::%d" % (10 + n_), 65200 + n_))
+    got = sorted((d_, p.hostname or "", p.interface, str(p.addr), int(p.remote_as)) for d_, ps in res.items() for p in ps)
     acc.count("sessions_between_sites_checked", len(want))
     if got != sorted(want):
         missing = [x for x in sorted(want) if x not in got]
@@ -813,6 +834,8 @@ def check_twins(seed, acc):
         return
     for d_ in devices:
         for p in res[d_]:
+            if not p.hostname:
+                continue
             q = [x for x in res[p.hostname] if x.hostname == d_ and any(str(ip_interface(a_[0]).ip) == str(p.addr) for a_ in devs[p.hostname].find_interface(x.interface).addrs)]
             if not q:
                 acc.violation("C15/twins/peer-address-not-configured-on-the-other-end", "the address a device peers with is not on the interface of the other end's session", dict(w, device=d_, peer=[p.hostname, str(p.addr)]))
